@@ -18,6 +18,7 @@ type Alloc struct {
 	Name     string
 	ReadOnly bool
 	Freed    bool
+	Huge     bool // stands for an allocation larger than modelled; out-of-range accesses are inconclusive
 	Tag      interface{} // front-end data (e.g. function for code addresses)
 }
 
@@ -224,6 +225,13 @@ func (a *Alloc) byteAt(i int) *smt.Term {
 }
 
 func (mm *Mem) inRange(a *Alloc, off *smt.Term, n int, what string) {
+	if a.Huge {
+		if mm.m.Feasible(smt.Ugt(off, smt.Const(64, uint64(a.Size-n)))) {
+			mm.m.Inconclusive("mem.huge", what+": access into an allocation larger than the modelled bound")
+			mm.m.EndPath("huge")
+		}
+		return
+	}
 	if a.Size-n < 0 {
 		mm.m.Assert(smt.False, "mem.oob", fmt.Sprintf("%s: %d-byte access to %s (size %d)", what, n, a.Name, a.Size), "oob")
 		mm.m.EndPath("oob")
